@@ -162,8 +162,21 @@ func LoadProgram(repo string) (*Program, error) {
 	}
 	shapes := readShapes()
 	rebound := P.rebindClosures(byRel, shapes)
+	for key, fn := range P.renamedFunctions(byRel, shapes) {
+		rebound[key] = fn
+	}
 	for key, fn := range rebound {
 		nameAlias[fn] = key[strings.Index(key, "::")+2:]
+	}
+	fren := P.fieldRenames(shapes)
+	for _, c := range P.Spec.Contracts {
+		renameFieldsInContract(c, fren)
+	}
+	for _, ti := range P.Spec.TypeInvs {
+		if ti.Clause != nil && len(fren) > 0 {
+			tmp := &Contract{Requires: []*Clause{ti.Clause}}
+			renameFieldsInContract(tmp, fren)
+		}
 	}
 	// a closure that now occupies a name given away gets a name of its own
 	for key := range rebound {
